@@ -130,6 +130,14 @@ def decide(pid, tier, seed, replay, t0):
                 bad_axioms.append(f"{t}: {sorted(extra)}")
             else:
                 discharged += 1
+    # thorough tier: a second opinion on the compiled proofs from the toolchain's independent re-checker
+    rechecked = []
+    if tier == "thorough" and not proof_broken:
+        built = [m for m in modules if m not in proof_broken]
+        rc, out, err = core.run(["lake", "env", "leanchecker"] + built, cwd=str(core.VERIF / "lean"), timeout=1500)
+        if rc != 0:
+            raise core.HarnessError(f"leanchecker rejects {built}: " + (out + err)[-2000:])
+        rechecked = built
     if proof_broken and not gen_changed and not tie_broken:
         raise core.HarnessError(
             f"proof module(s) {proof_broken} fail to build although Gen files equal the baseline "
@@ -184,7 +192,8 @@ def decide(pid, tier, seed, replay, t0):
     cov.setdefault("discharged", discharged)
     cov.setdefault("checker_cmd", "lake build " + " ".join(modules) + " && lake env lean <#print axioms for each theorem>")
     cov.setdefault("trusted_base", [
-        "Lean 4.33 kernel", "axioms: " + (", ".join(sorted(axioms_seen)) or "none"),
+        "Lean 4.33 kernel" + (f"; compiled proofs of {len(rechecked)} module(s) re-checked by leanchecker" if rechecked else ""),
+        "axioms: " + (", ".join(sorted(axioms_seen)) or "none"),
         "translator /verif/translate (Python ast) for Gen/*.lean",
         "correspondence harness /verif/harness (generators, canonicalisation, comparison)",
     ] + list(getattr(mod, "TRUSTED", [])))
